@@ -17,12 +17,25 @@ OPAQUE_KINDS = {"unknown": "unresolved value", "undef": "name not bound on this 
                 "unsupported": "statement kind not modelled"}
 
 
+# private identifiers of the analysed tree that the tree the rules were written for does not have
+# (set by sa/driver.py): a cache, a precomputed table, a new helper's result.  What such state holds
+# is established elsewhere (a constructor, a first use); a derived description that reads it is not
+# fully modelled.
+NEW_PRIVATE = set()
+_IDENT = _re.compile(r"(?<![A-Za-z0-9_])(_[A-Za-z][A-Za-z0-9_]*)")
+
+
 def opaque_reason(text, terms=()):
     """why a derived description is not fully modelled (None if it is)"""
     m = _OPAQUE.search(text or "")
     if m:
         i = m.start()
         return f"`{(text or '')[max(0, i - 30):i + 40]}`"
+    if NEW_PRIVATE and text:
+        for tok in _IDENT.findall(text):
+            if tok in NEW_PRIVATE:
+                return (f"`{tok}`: private state / helper that the tree the rules were written for "
+                        "does not have")
     seen = set()
 
     def walk(t, depth=0):
